@@ -327,7 +327,13 @@ impl<'a> LedgerGen<'a> {
                     let sample = Dec::new(1_000_000, dp);
                     let mut aliases = Vec::new();
                     if self.cfg.use_aliases && self.rng.chance(1, 2) {
-                        let a = format!("{}x", c);
+                        // an alias is the rest of its line: characters that start a comment
+                        // elsewhere are ordinary inside it
+                        // ('|' cannot be part of a commodity name, '%' can)
+                        let a = match self.rng.below(3) {
+                            0 => format!("{}%", c),
+                            _ => format!("{}x", c),
+                        };
                         aliases.push(a.clone());
                         self.aliases.push((a, c.clone(), false));
                     }
@@ -336,6 +342,22 @@ impl<'a> LedgerGen<'a> {
                     } else {
                         None
                     };
+                    if format.is_some() && !aliases.is_empty() && self.rng.chance(1, 3) {
+                        // the same commodity declared twice (a shared header, then a local
+                        // addition): the format in one directive, the alias in the other
+                        let first_has_format = self.rng.chance(2, 3);
+                        self.push(Entry::Commodity {
+                            name: c.clone(),
+                            aliases: if first_has_format { vec![] } else { aliases.clone() },
+                            format: if first_has_format { format.clone() } else { None },
+                        });
+                        self.push(Entry::Commodity {
+                            name: c.clone(),
+                            aliases: if first_has_format { aliases } else { vec![] },
+                            format: if first_has_format { None } else { format },
+                        });
+                        continue;
+                    }
                     self.push(Entry::Commodity {
                         name: c.clone(),
                         aliases,
@@ -349,7 +371,13 @@ impl<'a> LedgerGen<'a> {
                 if self.rng.chance(1, 2) {
                     let mut aliases = Vec::new();
                     if self.cfg.use_aliases {
-                        let al = format!("{}:Alias", a.split(':').next_back().unwrap_or("X"));
+                        let last = a.split(':').next_back().unwrap_or("X");
+                        let al = match self.rng.below(5) {
+                            0 => format!("{} #2", last),
+                            1 => format!("{}*:Alias", last),
+                            2 => format!("{}|{}%", last, last),
+                            _ => format!("{}:Alias", last),
+                        };
                         if !self.aliases.iter().any(|(x, _, _)| *x == al)
                             && !self.accounts.contains(&al)
                         {
@@ -524,7 +552,12 @@ impl<'a> LedgerGen<'a> {
                 let a1 = self.pick_account();
                 let a2 = self.pick_account();
                 let c = self.pick_commodity();
-                let cw = self.written_commodity(&c);
+                let mut cw = self.written_commodity(&c);
+                if self.rng.chance(1, 6) {
+                    // a commodity that makes its first appearance in the `= X` itself: never
+                    // declared, never posted, never named in a cost or lot before
+                    cw = ["FRESH", "NOVEL", "UNSEEN"][self.entries.len() % 3].to_string();
+                }
                 let v = self.value(false);
                 let mut p1 = Posting::new(&self.written_account(&a1));
                 p1.assertion = Some(if self.rng.chance(1, 8) {
@@ -979,18 +1012,25 @@ impl<'a> TreeState<'a> {
                 let names: [(&str, &str); 3] = [("a", "02"), ("b", "01"), ("b", "03")];
                 let same_name = self.rng.chance(1, 3);
                 let lead = self.rng.chance(1, 2);
+                // equally named matches may even carry the name of the file that includes them
+                // (`main.ledger` including `20*/main.ledger`)
+                let fname = if same_name && self.rng.chance(1, 3) {
+                    self.files[idx].path.rsplit('/').next().unwrap_or("x.ledger").to_string()
+                } else {
+                    format!("part{}.ledger", k)
+                };
                 let mut made: Vec<(usize, Vec<Entry>)> = Vec::new();
                 for (pi, c) in chunk.chunks(per).enumerate() {
                     let (d, n) = names[pi.min(2)];
                     let p = if lead {
                         // the wildcard leads the directory name: `*-yK/` and `?-yK/`
                         if same_name {
-                            format!("{}/{}-y{}/part{}.ledger", abs_dir, ["a", "b", "c"][pi.min(2)], k, k)
+                            format!("{}/{}-y{}/{}", abs_dir, ["a", "b", "c"][pi.min(2)], k, fname)
                         } else {
                             format!("{}/{}-y{}/part{}-{}.ledger", abs_dir, d, k, k, n)
                         }
                     } else if same_name {
-                        format!("{}/y{}{}/part{}.ledger", abs_dir, k, ["a", "b", "c"][pi.min(2)], k)
+                        format!("{}/y{}{}/{}", abs_dir, k, ["a", "b", "c"][pi.min(2)], fname)
                     } else {
                         format!("{}/y{}{}/part{}-{}.ledger", abs_dir, k, d, k, n)
                     };
@@ -1000,9 +1040,9 @@ impl<'a> TreeState<'a> {
                     made.push((self.files.len() - 1, c.to_vec()));
                 }
                 let pat = match (lead, same_name) {
-                    (true, true) => format!("{}?-y{}/part{}.ledger", rel_dir, k, k),
+                    (true, true) => format!("{}?-y{}/{}", rel_dir, k, fname),
                     (true, false) => format!("{}*-y{}/part{}-*.ledger", rel_dir, k, k),
-                    (false, true) => format!("{}y{}?/part{}.ledger", rel_dir, k, k),
+                    (false, true) => format!("{}y{}?/{}", rel_dir, k, fname),
                     (false, false) => format!("{}y{}*/part{}-*.ledger", rel_dir, k, k),
                 };
                 self.files[idx].push(Entry::Include(pat));
@@ -1010,9 +1050,9 @@ impl<'a> TreeState<'a> {
                     // a dot directory next to the matched ones, holding a file the last component matches:
                     // only the rule about leading dots keeps it out when the wildcard leads the name
                     let name = match (lead, same_name) {
-                        (true, true) => format!("{}/.-y{}/part{}.ledger", abs_dir, k, k),
+                        (true, true) => format!("{}/.-y{}/{}", abs_dir, k, fname),
                         (true, false) => format!("{}/.a-y{}/part{}-00.ledger", abs_dir, k, k),
-                        (false, true) => format!("{}/.y{}a/part{}.ledger", abs_dir, k, k),
+                        (false, true) => format!("{}/.y{}a/{}", abs_dir, k, fname),
                         (false, false) => format!("{}/.y{}a/part{}-00.ledger", abs_dir, k, k),
                     };
                     self.extra.insert(name, decoy_text(k));
@@ -1068,12 +1108,20 @@ impl<'a> TreeState<'a> {
                     self.fill(fi, c, depth + 1);
                 }
             } else {
-                let p = format!("{}/inc{}.ledger", abs_dir, k);
+                // a file in another directory may carry the name of the file that includes it
+                let own = self.files[idx].path.rsplit('/').next().unwrap_or("x.ledger").to_string();
+                let own_path = format!("{}/{}", abs_dir, own);
+                let fname = if abs_dir != dir && self.rng.chance(1, 5) && !self.files.iter().any(|f| f.path == own_path) && !self.extra.contains_key(&own_path) {
+                    own
+                } else {
+                    format!("inc{}.ledger", k)
+                };
+                let p = format!("{}/{}", abs_dir, fname);
                 let mut f = FileSpec::new(&p);
                 f.crlf = self.rng.chance(1, 6);
                 self.files.push(f);
                 let fi = self.files.len() - 1;
-                self.files[idx].push(Entry::Include(format!("{}inc{}.ledger", rel_dir, k)));
+                self.files[idx].push(Entry::Include(format!("{}{}", rel_dir, fname)));
                 if left >= 2 && self.rng.chance(1, 6) {
                     // an included file that holds no entry at all (empty, or blank lines only)
                     let pe = format!("{}/inc{}-empty.ledger", abs_dir, k);
@@ -1083,7 +1131,7 @@ impl<'a> TreeState<'a> {
                     self.files[idx].push(Entry::Include(format!("{}inc{}-empty.ledger", rel_dir, k)));
                 }
                 if self.cfg.decoys && abs_dir != "/w" && dir != "/w" && !rel_dir.starts_with("..") {
-                    let wrong = normalize(&format!("/w/{}inc{}.ledger", rel_dir, k));
+                    let wrong = normalize(&format!("/w/{}{}", rel_dir, fname));
                     if wrong != p && !self.files.iter().any(|f| f.path == wrong) {
                         self.extra.entry(wrong).or_insert_with(|| decoy_text(k));
                     }
